@@ -68,6 +68,63 @@ func fits315(x T) T { return App(SBool, "fits315", x) }
 var p18 = T{S: "P18", Sort: SInt}
 
 func init() {
+	// ---- sort.Slice / sort.SliceStable: only the elements of the given slice are rearranged (the less function is
+	// assumed not to write anything; which permutation results is left open)
+	sortSlice := func(c *libCall) (Val, bool) {
+		mi, ok := c.ssaArgs[0].(*ssa.MakeInterface)
+		if !ok {
+			return nil, false
+		}
+		sl, ok := mi.X.Type().Underlying().(*types.Slice)
+		if !ok {
+			return nil, false
+		}
+		sv := c.fr.ex.reify(c.st, c.fr.val(c.st, mi.X), mi.X.Type())
+		name, h, es := c.st.sliceHeap(sl.Elem())
+		c.st.heaps[name] = c.st.Name(name, Store(h, App(SInt, "sbase", sv), c.st.Fresh("sorted", "(Array Int "+es+")")))
+		c.fr.ex.Assumed["sort.Slice: the less function has no side effect; the result is some rearrangement of the slice (order not specified)"] = true
+		return T{S: "unit", Sort: SUnit}, true
+	}
+	libModels["sort.Slice"] = sortSlice
+	libModels["sort.SliceStable"] = sortSlice
+
+	// ---- sdk.DecCoins (per-denomination abstraction dcv, see prelude.smt2) ------------------
+	const decCoins = "(github.com/cosmos/cosmos-sdk/types.DecCoins)."
+	dcv := func(x T) T { return App(SInt, "dcv", x) }
+	dcResult := func(c *libCall, v T) T {
+		r := c.st.FreshOf("deccoins", c.sig.Results().At(0).Type())
+		c.st.Assume(Eq(dcv(r), c.st.Name("dc", v)))
+		return r
+	}
+	libModels[decCoins+"Add"] = func(c *libCall) (Val, bool) {
+		a, b := c.arg(0), c.arg(1)
+		c.st.Assume(And(App(SBool, ">=", dcv(a), IntLit(0)), App(SBool, ">=", dcv(b), IntLit(0))))
+		return dcResult(c, App(SInt, "+", dcv(a), dcv(b))), true
+	}
+	libModels[decCoins+"Sub"] = func(c *libCall) (Val, bool) {
+		a, b := c.arg(0), c.arg(1)
+		c.st.Assume(And(App(SBool, ">=", dcv(a), IntLit(0)), App(SBool, ">=", dcv(b), IntLit(0))))
+		c.panicUnless(App(SBool, ">=", dcv(a), dcv(b)), "negative coin amount")
+		return dcResult(c, App(SInt, "-", dcv(a), dcv(b))), true
+	}
+	libModels[decCoins+"MulDecTruncate"] = func(c *libCall) (Val, bool) {
+		a, d := c.arg(0), c.arg(1)
+		c.panicUnless(Not(dnil(d)), "nil Dec argument")
+		c.st.Assume(App(SBool, ">=", dcv(a), IntLit(0)))
+		return dcResult(c, App(SInt, "chop_trunc", App(SInt, "*", dcv(a), dval(d)))), true
+	}
+	libModels[decCoins+"MulDec"] = func(c *libCall) (Val, bool) {
+		a, d := c.arg(0), c.arg(1)
+		c.panicUnless(Not(dnil(d)), "nil Dec argument")
+		c.st.Assume(App(SBool, ">=", dcv(a), IntLit(0)))
+		return dcResult(c, App(SInt, "chop_round", App(SInt, "*", dcv(a), dval(d)))), true
+	}
+	libModels[sdkPkg+"NewDecCoinsFromCoins"] = func(c *libCall) (Val, bool) {
+		a := c.arg(0)
+		c.st.Assume(App(SBool, ">=", App(SInt, "coinsv", a), IntLit(0)))
+		return dcResult(c, App(SInt, "*", App(SInt, "coinsv", a), p18)), true
+	}
+
 	// ---- math.Int -------------------------------------------------------------------------
 	intBin := func(op string, check bool) libModel {
 		return func(c *libCall) (Val, bool) {
